@@ -22,7 +22,7 @@ STATEMENT = ('listby(keys) has exactly one row per distinct key, its other cells
              'unlist() of it equals the table stably sorted by the keys; groupby yields one sub-table per distinct key whose sizes add up to '
              'len(d) and ungroup() restores the multiset of rows; pivot puts every row\'s z in the cell addressed by its x key and y value '
              '(None where no row), unpivot + dropping None restores the unique (x, y, z) rows')
-LEAN_FILES = ['Basic', 'Cmp', 'Sort', 'TableBasic', 'Join', 'Group', 'GroupDriver', 'Tri', 'CmpLemmas', 'JoinLemmas', 'GroupLemmas', 'UnlistLemmas', 'PivotLemmas', 'C11']
+LEAN_FILES = ['Basic', 'Cmp', 'Sort', 'TableBasic', 'Join', 'Group', 'GroupDriver', 'Tri', 'CmpLemmas', 'JoinLemmas', 'GroupLemmas', 'UnlistLemmas', 'PivotLemmas', 'UnpivotLemmas', 'C11']
 RULE = 'distinct protocol lines (one listby+unlist, groupby+ungroup or pivot+unpivot round trip) on a table with at least 2 rows on which the implementation returned'
 TRUSTED = ['correspondence harness (pv.engine, pv.proto) and generators / reference checks of pv.props.c11',
            'Lean driver parser/printer (PygModel/Basic.lean, GroupDriver.lean)']
